@@ -8,7 +8,7 @@
        which the harness then executes on the real code (validated by PolicyTrace). *)
 EXTENDS Policy, Json
 
-CONSTANTS Pool          \* "c2" | "a1" | "seq" | "c2x"
+CONSTANTS Pool          \* "c2" | "a1" | "seq" | "alias" | "c2x"
 
 VARIABLES prog
 mvars == <<prog>>
@@ -60,6 +60,10 @@ SeesConds == {Cond("commcount", "", "", "ge", 2, {}), Cond("aslen", "", "", "ge"
               SC("aspath", "as1", "any"), Cond("nh", "", "", "", 0, {"192.0.2.2"}), Cond("origin", "", "", "", 2, {}),
               SC("large", "ls1", "all")}
 
+AliasActs == ModActs \cup {Act("comm", "add", 0, 0, {"65100:10", "65001:200"}, ""), Act("ext", "add", 0, 0, {"rt:65002:200"}, ""),
+                          Act("prepend", "as", 65010, 1, {}, ""), Act("med", "set", 9, 0, {}, ""), Act("lp", "", 50, 0, {}, "")}
+AliasPairs == {pr \in AliasActs \X AliasActs : pr[1].k = pr[2].k /\ pr[1] # pr[2] /\ ~(pr[1].k = "large" /\ "add" \in {pr[1].mode, pr[2].mode})}
+
 CondSets(CP, maxc) == {{}} \cup {{c} : c \in CP}
                       \cup (IF maxc >= 2 THEN UNION {{{c, d} : d \in {x \in CP : x.k # c.k}} : c \in CP} ELSE {})
 Stmts(name, CP, maxc, AP, DP) ==
@@ -75,6 +79,11 @@ Progs ==
     [] Pool = "seq" ->    \* two statements: modify and go on; then test what was modified
          [s1 : Stmts("st1", {SC("neighbor", "ns1", "any"), SC("prefix", "ps1", "invert")}, 1, ModActs, {"none"}),
           s2 : Stmts("st2", SeesConds, 1, {}, {"accept", "reject"}), def : {"accept", "reject"}]
+    [] Pool = "alias" ->  \* the same kind of modification with DIFFERENT values for two target peers, applied
+                          \* from one stored path: an in-place modification of a shared list shows up in the
+                          \* result already handed out for the other peer ("large add": recorded finding, seeds)
+         [s1 : {Stmt("st1", {SC("neighbor", "ns1", "any")}, {pr[1]}, "accept") : pr \in AliasPairs},
+          s2 : {Stmt("st2", {}, {pr[2]}, "accept") : pr \in AliasPairs}, def : {"accept"}]
     [] Pool = "c2x" ->    \* thorough: two statements, <= 2 conditions each, one modification
          [s1 : Stmts("st1", {SC("neighbor", "ns1", "any"), SC("prefix", "ps1", "any"), SC("comm", "cs1", "invert"),
                              Cond("rtype", "", "external", "", 0, {}), Cond("aslen", "", "", "ge", 2, {})}, 2,
@@ -106,6 +115,16 @@ EvalOps ==
        ELSE [op |-> "Eval", route |-> r, d1 |-> "import", p1 |-> r.src,
              d2 |-> "export", p2 |-> (IF r.src = "A" THEN "B" ELSE "A")]]
 
+(* alias pool: both orders of two export targets, and import followed by export *)
+AliasEvalOps ==
+  LET one(r) == IF r.src = "local"
+                THEN <<[op |-> "Eval", route |-> r, d1 |-> "export", p1 |-> "A", d2 |-> "export", p2 |-> "C"],
+                       [op |-> "Eval", route |-> r, d1 |-> "export", p1 |-> "C", d2 |-> "export", p2 |-> "A"]>>
+                ELSE <<[op |-> "Eval", route |-> r, d1 |-> "export", p1 |-> "A", d2 |-> "export", p2 |-> "C"],
+                       [op |-> "Eval", route |-> r, d1 |-> "export", p1 |-> "C", d2 |-> "export", p2 |-> "A"],
+                       [op |-> "Eval", route |-> r, d1 |-> "import", p1 |-> r.src, d2 |-> "export", p2 |-> "A"]>>
+  IN one(TinyRoutes[1]) \o one(TinyRoutes[3]) \o one(TinyRoutes[5]) \o one(TinyRoutes[6])
+
 ProgOps(pr) ==
   <<[op |-> "AddPol", name |-> "p1", refer |-> FALSE,
      stmts |-> IF pr.s2 = NoStmt THEN <<pr.s1>> ELSE <<pr.s1, pr.s2>>],
@@ -133,5 +152,5 @@ D_C10_MechWithinDoc ==
 
 EmitTiny ==
   PrintT("VPOUT " \o ToJson([peers |-> PeerTable, nbr |-> NbrCovers, rbevery |-> FALSE, kind |-> "tiny:" \o Pool,
-                             steps |-> NeededBase(prog) \o ProgOps(prog) \o EvalOps]))
+                             steps |-> NeededBase(prog) \o ProgOps(prog) \o (IF Pool = "alias" THEN AliasEvalOps ELSE EvalOps)]))
 =============================================================================
